@@ -34,8 +34,14 @@ class UnicodeUnslicer(LeafUnslicer):
     def checkToken(self, typebyte, size):
         if typebyte not in (STRING, VOCAB):
             raise BananaError("UnicodeUnslicer only accepts strings")
-        #if self.constraint:
-        #    self.constraint.checkToken(typebyte, size)
+        if (typebyte == STRING and self.constraint is not None
+            and self.constraint.maxLength is not None
+            and size > 6*self.constraint.maxLength):
+            # a character takes at most 6 bytes (see UnicodeConstraint), so
+            # this body cannot satisfy the constraint: refuse it now rather
+            # than buffering all of it first
+            raise Violation("unicode body too long (%d > 6*%d)" %
+                            (size, self.constraint.maxLength))
 
     def receiveChild(self, obj, ready_deferred=None):
         assert not isinstance(obj, Deferred)
